@@ -166,15 +166,24 @@ def run(ck):
                 ("two objects: repeated closing calls, stale deregistration",
                  dict(MaxObj=2, MaxOps=6, MaxClose=2, MaxPlug=1,
                       Kinds=kinds(["timer", "lst", "adp", "ws"] if ck.tier == "quick" else ["timer", "tcp", "lst", "pkt", "adp", "ws"]),
+                      WithFail="FALSE", WithUninj="FALSE", WithGc="TRUE", WithRehs="FALSE", TruncK="{1}")),
+                ("registry defects only, two objects: stale deregistration, early deregistration",
+                 dict(MaxObj=2, MaxOps=6, MaxClose=2, MaxPlug=0,
+                      Kinds=kinds(["tcp", "lst", "adp"] if ck.tier == "quick" else ["tcp", "acc", "lst", "pkt", "adp", "ws"]),
                       WithFail="FALSE", WithUninj="FALSE", WithGc="TRUE", WithRehs="FALSE", TruncK="{1}")))):
             consts2 = dict(consts2)
             consts2.update(BEFORE_REPAIR)
+            if nm.startswith("registry"):
+                # only the registry defects switched on: with everything on, the stale Close of an adapter is already
+                # rejected as a foreign close and the history never gets as far as the collection
+                consts2.update(BUGS)
+                consts2.update(BUG_ForeignDeregister="TRUE", BUG_EarlyDeregister="TRUE")
             c2 = vlib.cfg_with(sw, "FdTableImpl_mc.cfg", consts2, outname="gen_before_%d.cfg" % idx, drop=["ACTION_CONSTRAINT"],
                                add=["ACTION_CONSTRAINT EmitBad"])
             r2 = vlib.tlc(sw, "FdTableImpl", c2, workers=2, timeout=900)
             if not r2.ok:
                 raise vlib.Inconclusive("FdTableImpl before-repair: %s\n%s" % (r2.violated or r2.error, r2.tail()))
-            ck.add_tlc("FdTableImpl with every BUG_* = TRUE (design before the repairs), " + nm, r2, consts2)
+            ck.add_tlc("FdTableImpl with BUG_* = TRUE (design before the repairs), " + nm, r2, consts2)
             reached |= {line.split('"')[3] for line in r2.lines('<<"MODELBAD"')}
             # every history the pre-repair model rejects is a regression script for the real code: in the repaired
             # model many of them end in states that coincide with harmless ones (VIEW), so the transition cover of the
